@@ -186,6 +186,24 @@ def run_tsan(binary, prop, seed, VERIF, TARGET, log):
     return res
 
 
+_ALLOC = re.compile(r"^(malloc|free|calloc|realloc|memalign|posix_memalign|mem(cpy|move|set|cmp)|__mem\w+|str\w+|_int_\w+|operator |vg_replace|__GI_|_dl_|__libc)")
+
+
+def _faulting_frame_is_rust(block):
+    """True iff the first frame that is not an allocator / mem* routine is Rust code of the extension module.
+    CPython's own (well known, constant) uninitialised-value reports fault inside libpython functions and are
+    excluded even when pyo3 code appears further up the stack."""
+    for line in block.splitlines():
+        m = re.match(r"==\d+==\s+(?:at|by) 0x[0-9A-Fa-f]+: (.*)$", line)
+        if not m:
+            continue
+        fn = m.group(1)
+        if _ALLOC.match(fn):
+            continue
+        return "::" in fn.split(" (")[0] or "similari" in fn
+    return False
+
+
 def run_valgrind(binary, prop, seed, VERIF, TARGET, log):
     """E5: valgrind memcheck over CPython + the real similari.so driven by a slice of the C18 scripts.
     Only report blocks with a frame inside similari.so count (CPython's own noise is constant and excluded by that rule)."""
@@ -227,7 +245,7 @@ def run_valgrind(binary, prop, seed, VERIF, TARGET, log):
             if not re.search(r"(Invalid (read|write|free)|uninitialised|Mismatched free|definitely lost|Source and destination overlap)", b):
                 continue
             blocks_total += 1
-            if "similari" in b and "definitely lost" not in b:
+            if _faulting_frame_is_rust(b) and "definitely lost" not in b:
                 ours += 1
                 first = [l for l in b.splitlines() if "similari" in l][:1]
                 kind = re.search(r"(Invalid (?:read|write|free)|[Uu]se of uninitialised value|Conditional jump or move depends on uninitialised|Mismatched free|Source and destination overlap)", b)
